@@ -2,17 +2,70 @@
 package c05
 
 import (
+	"fmt"
 	"strings"
 
+	minify "github.com/tdewolff/minify/v2"
+	"github.com/tdewolff/minify/v2/css"
+	"github.com/tdewolff/minify/v2/html"
+	"github.com/tdewolff/minify/v2/svg"
 	"verif/internal/core"
 )
 
 // Run executes C05.
 func Run(c *core.Check) {
-	c.Rule = "paths: 4 start points x every sequence of <=N command variants (57 variants covering all 20 command letters, implicit repetition, coincident/axis-aligned/reflected/degenerate geometry, every arc flag pair, numbers with exponents and sign/dot adjacency) x 3 separator styles (spaces, commas, compact incl. glued arc flags), through the exported shortener and (every 16th) through the public minifier; documents: small SVG trees by grammar (see documents.go). Non-trivial = output differs from input"
+	c.Rule = "paths: 4 start points x every sequence of <=N command variants (57 variants covering all 20 command letters, implicit repetition, coincident/axis-aligned/reflected/degenerate geometry, every arc flag pair, numbers with exponents and sign/dot adjacency) x 3 separator styles (spaces, commas, compact incl. glued arc flags), through the exported shortener and (every 16th) through the public minifier; documents: small SVG trees by grammar (see documents.go); call sequences: every sequence of <=3 calls (stand-alone SVG, HTML with inline SVG, CSS with an SVG data URI) on one shared *svg.Minifier against the same calls on fresh registries. Non-trivial = output differs from input"
 	c.Assumptions = []string{"own strict path-data parser (SVG 1.1 grammar) and interpreter; tolerance 1e-9 relative to the coordinate scale", "zero-length lines and curves whose control points all lie on end points may be simplified, nothing else"}
 	runPaths(c)
 	runDocs(c)
+	runSequences(c)
+}
+
+// runSequences: state carried from one call to the next on ONE registered *svg.Minifier (the
+// way the command line tool and the bindings use it): every sequence of <=3 documents over
+// stand-alone SVG files and HTML pages with inline SVG (which reach the SVG minifier with the
+// inline parameter); every call must give what it gives on a fresh registry.
+func runSequences(c *core.Check) {
+	docs := []struct{ typ, text string }{
+		{"image/svg+xml", `<svg xmlns="http://www.w3.org/2000/svg" viewBox="0 0 10 10"><path d="M0 0L10 10"/></svg>`},
+		{"text/html", `<p>x<svg xmlns="http://www.w3.org/2000/svg" width="1.0"><rect width="10.0" style="fill : red"/></svg>`},
+		{"image/svg+xml", `<?xml version="1.0"?><svg xmlns="http://www.w3.org/2000/svg" xmlns:xlink="http://www.w3.org/1999/xlink"><use xlink:href="#a"/><!-- c --></svg>`},
+		{"text/css", `a{background:url("data:image/svg+xml,%3Csvg xmlns='http://www.w3.org/2000/svg'%3E%3Cpath d='M0 0L1 1'/%3E%3C/svg%3E")}`},
+	}
+	mk := func(keep bool) *minify.M {
+		m := minify.New()
+		m.Add("image/svg+xml", &svg.Minifier{KeepComments: keep})
+		m.Add("text/html", &html.Minifier{})
+		m.Add("text/css", &css.Minifier{})
+		return m
+	}
+	fam := "call-sequences"
+	seq := core.Sequences{K: len(docs), MaxLen: 3}
+	c.Family(fam).Bound = fmt.Sprintf("every sequence of <=3 calls over %d documents on one shared *svg.Minifier, KeepComments off/on", len(docs))
+	for _, keep := range []bool{false, true} {
+		alone := make([]string, len(docs))
+		for i, d := range docs {
+			alone[i], _ = mk(keep).String(d.typ, d.text)
+		}
+		for i := uint64(1); i < seq.Count(); i++ {
+			m := mk(keep)
+			ks := seq.At(i, nil)
+			for j, k := range ks {
+				out, _ := m.String(docs[k].typ, docs[k].text)
+				c.Count(1)
+				c.AddFamily(fam, 1, 1)
+				c.Nontrivial(fam, fmt.Sprint(keep, ks[:j+1]))
+				if out != alone[k] {
+					var names []string
+					for _, x := range ks[:j+1] {
+						names = append(names, docs[x].typ)
+					}
+					c.Fail(core.Failure{Family: fam, Input: strings.Join(names, " ⟶ "), Config: fmt.Sprintf("KeepComments=%v", keep), Kind: "state-survives-call", What: fmt.Sprintf("call %d gives %q, on a fresh registry it gives %q", j+1, out, alone[k]), Order: i})
+					break
+				}
+			}
+		}
+	}
 }
 
 // Replay re-executes one failure.
